@@ -422,8 +422,9 @@ def run_property(pid: str, tier: str, seed: int) -> int:
         },
         "assumptions": list(getattr(mod, "ASSUMPTIONS", [])),
     }
-    EVIDENCE.mkdir(exist_ok=True)
-    (EVIDENCE / f"{pid}.json").write_text(json.dumps(ev, indent=1, default=str))
+    if not os.environ.get("VERIF_NO_EVIDENCE"):  # mutation runs on scratch copies must not overwrite evidence
+        EVIDENCE.mkdir(exist_ok=True)
+        (EVIDENCE / f"{pid}.json").write_text(json.dumps(ev, indent=1, default=str))
     for ln in lines:
         print(ln)
     print(f"{pid} {tier}: theorems={len(theorems)} families={len(fams)} corr_evals={sum(f.evaluations for f in fams)} "
